@@ -74,13 +74,30 @@ func TestC19LazyCancel(t *testing.T) {
 		time.Sleep(cancelAfter)
 		cancel()
 		t0 := time.Now()
-		select {
-		case err := <-done:
-			if err == nil {
-				rt.Fatalf("a call to nodes that never answer succeeded")
+		// The call must return promptly after the cancellation. "Promptly" is judged generously and only on a
+		// machine that is demonstrably responsive: 100 ms ticks are counted while waiting, 15 s worth of them
+		// must have been seen before the silence counts as a violation (a starved machine is inconclusive).
+		ticks := 0
+		tick := time.NewTicker(100 * time.Millisecond)
+		defer tick.Stop()
+		started := time.Now()
+	waitLoop:
+		for {
+			select {
+			case err := <-done:
+				if err == nil {
+					rt.Fatalf("a call to nodes that never answer succeeded")
+				}
+				break waitLoop
+			case <-tick.C:
+				ticks++
+				if ticks >= 150 {
+					rt.Fatalf("CANCEL IGNORED (lazy clients): caller cancelled %v into a %s call on never-used clients of %d primaries / %d fallbacks that do not answer; 15 s (150 observed ticks) later the call has still not returned (node timeout 20 s)", cancelAfter, call, len(primaries), len(fallbacks))
+				}
+				if time.Since(started) > 60*time.Second {
+					panic("HARNESS-ERROR: the machine is starved (fewer than 150 ticks of 100 ms in 60 s of wall clock)")
+				}
 			}
-		case <-time.After(5 * time.Second):
-			rt.Fatalf("CANCEL IGNORED (lazy clients): caller cancelled %v into a %s call on never-used clients of %d primaries / %d fallbacks that do not answer; 5 s later the call has still not returned (node timeout 20 s)", cancelAfter, call, len(primaries), len(fallbacks))
 		}
 		vstat.Max("lazy_cancel_return_ms", int64(time.Since(t0)/time.Millisecond))
 		vstat.Case(fmt.Sprintf("lazy/%s/%d/%d/%v", call, len(primaries), len(fallbacks), cancelAfter), true, "lazy_cancel")
